@@ -5,6 +5,7 @@ import (
 	"os"
 	"os/exec"
 	"path/filepath"
+	"strings"
 	"sync/atomic"
 	"time"
 
@@ -18,7 +19,7 @@ import (
 
 type c05Case struct {
 	Launch string `json:"launch"` // cmd | runner | script
-	Cause  string `json:"cause"`  // badline | silence | partial | exit_before_output | close_stdout | exit_after_line
+	Cause  string `json:"cause"`  // badline | badline_more | silence | partial | exit_before_output | close_stdout | exit_after_line
 	Cfg    c01Cfg `json:"cfg"`
 	Line   []byte `json:"line"`
 	ExitMs int    `json:"exit_ms"` // for exit_* causes: delay before exiting
@@ -33,7 +34,7 @@ func c05Gen(t *rapid.T) any {
 	if c.Cfg.TLS == "auto" && !pct(t, "keepauto", 30) {
 		c.Cfg.TLS = ""
 	}
-	c.Cause = []string{"badline", "silence", "partial", "exit_before_output", "close_stdout", "exit_after_line"}[weighted(t, "cause", 60, 6, 6, 10, 8, 10)]
+	c.Cause = []string{"badline", "silence", "partial", "exit_before_output", "close_stdout", "exit_after_line", "badline_more"}[weighted(t, "cause", 50, 6, 6, 10, 8, 10, 10)]
 	c.Line = c01GenLine(t, c.Cfg)
 	c.ExitMs = []int{0, 1, 5, 30}[uniform(t, "exitms", 4)]
 	return c
@@ -51,6 +52,10 @@ func c05Steps(c *c05Case) []FakeStep {
 		return []FakeStep{{Op: "sleep", Ms: c.ExitMs}, {Op: "close_out"}, {Op: "forever"}}
 	case "exit_after_line":
 		return []FakeStep{{Op: "out", Data: append(append([]byte{}, c.Line...), '\n')}, {Op: "sleep", Ms: c.ExitMs}, {Op: "exit", Code: 0}}
+	case "badline_more":
+		// the first line is followed by more output (usage text, a stack trace); the plugin stays alive
+		more := []byte("second line of output\nthird line\n" + strings.Repeat("x", 5000) + "\nlast\n")
+		return []FakeStep{{Op: "out", Data: append(append(append([]byte{}, c.Line...), '\n'), more...)}, {Op: "forever"}}
 	default: // badline: a complete line, plugin stays alive
 		return []FakeStep{{Op: "out", Data: append(append([]byte{}, c.Line...), '\n')}, {Op: "forever"}}
 	}
